@@ -34,7 +34,10 @@ class Untranslatable(Exception):
 
 # group -> (module path, output file, [(function, {param: type}), ...])
 GROUPS = {
-    "pc": ("pyrepseq/stats.py", "FormulasPc.lean", [("pc_n", {"n": "vec"}), ("varpc_n", {"n": "vec"})]),
+    # `pc` of ONE flat collection (not a DataFrame, not a 2-tuple; `array2=None`): np.unique(return_counts) is `counts` of Model/Stats
+    "pc": ("pyrepseq/stats.py", "FormulasPc.lean", [("pc_n", {"n": "vec"}), ("varpc_n", {"n": "vec"}),
+                                                     ("pc", {"array": "coll"}, {"real": False, "static": {"array2": None},
+                                                                                "suffix": "_one_sample"})]),
     "richness": ("pyrepseq/stats.py", "FormulasRichness.lean", [
         ("chao1", {"counts": "vec"}), ("var_chao1", {"counts": "vec"}),
         ("chao2", {"counts": "vec", "m": "rat"}), ("var_chao2", {"counts": "vec", "m": "rat"}),
@@ -77,9 +80,9 @@ ENTROPY_GROUP = ("pyrepseq/entropy.py", "FormulasEntropy.lean", [
     for wb in (True, False)])
 
 # the standard deviation estimator: `varpc_n` inlined, under the real square root
-STD_GROUP = ("pyrepseq/stats.py", "FormulasStd.lean", [("stdpc_n", {"n": "vec"}, {})])
+STD_GROUP = ("pyrepseq/stats.py", "FormulasStd.lean", [("stdpc_n", {"n": "vec"}, {}), ("stdpc", {"array": "coll"}, {})])
 
-IDENTITY_CALLS = {"np.asarray", "np.array", "ensure_numpy", "list", "pd.Series"}
+IDENTITY_CALLS = {"np.asarray", "np.array", "ensure_numpy", "list", "pd.Series", "convert_tuple_to_dataframe_if_necessary"}
 
 
 def dotted(node):
@@ -106,7 +109,8 @@ class Fn:
         self.env = dict(ptypes)          # name -> type
         self.ptypes = ptypes
         self.opts = opts or {}
-        self.real = opts is not None     # over ℝ (noncomputable) instead of ℚ
+        self.real = opts is not None and opts.get("real", True)     # over ℝ (noncomputable) instead of ℚ
+        self.local_defs = {}             # functions defined inside the function
         self.K = "ℝ" if self.real else "Rat"
         self.static = dict(self.opts.get("static", {}))
         self.externals = []              # (name, type) of locals turned into parameters
@@ -128,10 +132,31 @@ class Fn:
                 return self.is_identity(node.args[0], var)
             if isinstance(node.func, ast.Attribute) and node.func.attr == "dropna" and not node.args and not node.keywords:
                 return self.is_identity(node.func.value, var)
+            if isinstance(node.func, ast.Name) and node.func.id in self.local_defs and len(node.args) == 1 and not node.keywords \
+                    and self.identity_on_flat(self.local_defs[node.func.id]):
+                return self.is_identity(node.args[0], var)
             return None
-        if isinstance(node, ast.Name) and self.env.get(node.id) in ("vec", "coll"):
+        if isinstance(node, ast.Name) and (self.env.get(node.id) in ("vec", "coll") or node.id in self.vecs):
             return node.id
         return None
+
+    def identity_on_flat(self, fdef):
+        """a local helper `def f(a): if not isinstance(a, DataFrame): return <conversion>(a) ...`: the identity on a collection that is not a
+        DataFrame (the only kind the translated definition is about)"""
+        body = [b for b in fdef.body if not (isinstance(b, ast.Expr) and isinstance(b.value, ast.Constant))]
+        if len(fdef.args.args) != 1 or not body or not isinstance(body[0], ast.If):
+            return False
+        prm, t = fdef.args.args[0].arg, body[0].test
+        if not (isinstance(t, ast.UnaryOp) and isinstance(t.op, ast.Not) and isinstance(t.operand, ast.Call) and dotted(t.operand.func) == "isinstance"
+                and len(t.operand.args) == 2 and dotted(t.operand.args[0]) == prm and dotted(t.operand.args[1]) in ("DataFrame", "pd.DataFrame")):
+            return False
+        rb = body[0].body
+        if len(rb) != 1 or not isinstance(rb[0], ast.Return) or rb[0].value is None:
+            return False
+        v = rb[0].value
+        while isinstance(v, ast.Call) and dotted(v.func) in IDENTITY_CALLS and len(v.args) == 1 and not v.keywords:
+            v = v.args[0]
+        return isinstance(v, ast.Name) and v.id == prm
 
     def expr(self, e):
         if isinstance(e, ast.Name):
@@ -159,6 +184,14 @@ class Fn:
             return f"(¬ {v})", "prop"
         if isinstance(e, ast.BinOp):
             return self.binop(e)
+        if isinstance(e, ast.Subscript) and isinstance(e.value, ast.Attribute) and e.value.attr == "shape" and isinstance(e.slice, ast.Constant) \
+                and e.slice.value == 0:
+            v, t = self.expr(e.value.value)
+            if t in ("set", "coll"):
+                return f"({v}).length", "nat"              # `a.shape[0]` of a one-dimensional collection
+            if t == "vec" and v[2] == "x":
+                return f"{v[1]}.length", "nat"
+            raise Untranslatable("shape of this expression")
         if isinstance(e, ast.Subscript):
             v, t = self.expr(e.value)
             if t == "vec" and v[2] == "x" and isinstance(e.slice, ast.Constant) and isinstance(e.slice.value, int) and e.slice.value >= 0:
@@ -429,8 +462,29 @@ class Fn:
                 finally:
                     self.depth -= 1
         if isinstance(s, ast.FunctionDef) or (isinstance(s, ast.Assign) and isinstance(s.value, ast.Lambda)):
-            # a local function: translated only if the live path calls it (then the call fails to translate)
+            # a local function: translated only if the live path calls it (then the call fails to translate, unless it is the identity
+            # on the collections the definition is about, see identity_on_flat)
+            if isinstance(s, ast.FunctionDef):
+                self.local_defs[s.name] = s
             return self.block(rest, ind)
+        if isinstance(s, ast.Assign) and len(s.targets) == 1 and isinstance(s.targets[0], ast.Name) and s.targets[0].id in self.static \
+                and isinstance(s.value, ast.Call) and dotted(s.value.func) == "convert_tuple_to_dataframe_if_necessary" and len(s.value.args) == 1 \
+                and dotted(s.value.args[0]) == s.targets[0].id and not isinstance(self.static[s.targets[0].id], tuple):
+            return self.block(rest, ind)                   # a fixed non-tuple argument (None) stays what it is
+        if isinstance(s, ast.Assign) and len(s.targets) == 1 and isinstance(s.targets[0], ast.Tuple) and len(s.targets[0].elts) == 2 \
+                and all(isinstance(x, ast.Name) for x in s.targets[0].elts) and isinstance(s.value, ast.Call) \
+                and dotted(s.value.func) in ("np.unique", "numpy.unique") and len(s.value.args) == 1 \
+                and [(k.arg, getattr(k.value, "value", None)) for k in s.value.keywords] == [("return_counts", True)]:
+            # `values, counts = np.unique(a, return_counts=True)`: the distinct values and their multiplicities (Model/Stats `counts`;
+            # the statistic summed over them does not depend on their order)
+            v, t = self.expr(s.value.args[0])
+            if t != "coll":
+                raise Untranslatable("np.unique of this expression")
+            vals, cnts = (x.id for x in s.targets[0].elts)
+            self.env[vals] = "set"
+            self.vecs[cnts] = ("vec", f"((Prs.counts {v}).map fun c : Nat => (c : Rat))", "x")
+            self.env.pop(cnts, None)
+            return f"{pad}let {vals} := (dedup {v})\n" + self.block(rest, ind)
         if isinstance(s, ast.Assign):
             if len(s.targets) != 1 or not isinstance(s.targets[0], ast.Name):
                 raise Untranslatable("assignment target")
@@ -579,14 +633,14 @@ def gen_group(group):
     out = [f"/- GENERATED by tools/gen_formulas.py from {path} — do not edit.", "",
            "   Each definition is the Python function of the same name, statement by statement, over exact rationals:",
            "   NumPy / pandas conversions are the identity, `np.nan` is `none`, an absent index reads 0. -/",
-           "import Prs.Model.Search", "namespace Prs.Generated", ""]
-    for name, ptypes in fns:
+           "import Prs.Model.Stats", "namespace Prs.Generated", ""]
+    for name, ptypes, *o in fns:
         if name not in defs:
             raise Untranslatable(f"{path}: function {name} not found")
         try:
-            fn_ = Fn(defs[name], ptypes)
+            fn_ = Fn(defs[name], ptypes, *o)
             fn_.module_defs = {k: v for k, v in defs.items() if k != name}
-            out += [f"/-- `{name}` of {path} -/", fn_.lean(), ""]
+            out += [f"/-- `{name}` of {path}" + (f" with {o[0]['static']}" if o and o[0].get("static") else "") + " -/", fn_.lean(), ""]
         except Untranslatable as e:
             raise Untranslatable(f"{path}:{name}: {e}") from None
     out += ["end Prs.Generated", ""]
@@ -608,7 +662,7 @@ def gen_real(group=None):
                 "   static shape of `features` / `by` (conditions on them are decided at translation time) and per `base` given (a real",
                 "   number) or None (suffix `_nat`). -/"]
     out += [
-           "import Mathlib.Analysis.SpecialFunctions.Pow.Real", "import Mathlib.Analysis.SpecialFunctions.Log.Basic",
+           "import Mathlib.Analysis.SpecialFunctions.Pow.Real", "import Mathlib.Analysis.SpecialFunctions.Log.Basic", "import Prs.Model.Stats",
            "namespace Prs.Generated", "noncomputable section", "open Classical", ""]
     if group is ENTROPY_GROUP:
         out.insert(-1, "set_option linter.unusedVariables false")
